@@ -217,6 +217,9 @@ func runSelftest(prop string, neutralProps []string, maxNeutral int) ([]selfRow,
 						if i := strings.Index(l, "obligation="); i >= 0 {
 							row.Violations = append(row.Violations, strings.Fields(l[i+len("obligation="):])[0])
 						}
+						if !strings.HasSuffix(strings.TrimSpace(l), "no-failing-input-found") {
+							row.Replayed++
+						}
 					}
 					if strings.HasPrefix(l, "UNDECIDED ") {
 						row.Undecided++
